@@ -116,6 +116,7 @@ pub struct Interp<'p> {
 	pub div_zero_forks: bool,
 	pub div_assumptions: u64,
 	pub f32_mode: bool,
+	pub pending_axioms: Vec<T>,
 }
 
 impl<'p> Interp<'p> {
@@ -159,6 +160,7 @@ impl<'p> Interp<'p> {
 			div_zero_forks: false,
 			div_assumptions: 0,
 			f32_mode: false,
+			pending_axioms: Vec::new(),
 		}
 	}
 
@@ -549,6 +551,15 @@ impl<'p> Interp<'p> {
 		}
 		self.sol.as_mut().unwrap().temp_pop();
 		self.spec_marks.pop();
+		// facts about uninterpreted functions made inside the branch hold on every path: keep them
+		let ax = std::mem::take(&mut self.pending_axioms);
+		for t in ax {
+			if !self.spec_marks.is_empty() {
+				self.pending_axioms.push(t);
+			}
+			let sol = self.sol.as_mut().unwrap();
+			sol.assert(&self.tm, t);
+		}
 		let log = self.spec_undo.pop().unwrap();
 		// final values of the written cells, then undo in reverse order
 		let mut writes: Vec<(C, V)> = Vec::new();
